@@ -30,6 +30,7 @@ import Fcgi.Props.C07Unbounded
 import Fcgi.Props.C08
 import Fcgi.Props.C08Inv
 import Fcgi.Props.C08Replies
+import Fcgi.Props.C08Replies2
 import Fcgi.Props.C09
 import Fcgi.Props.C09E2E
 import Fcgi.Props.C10
@@ -42,6 +43,7 @@ import Fcgi.Props.C11Filter2
 import Fcgi.Props.C11Filter3
 import Fcgi.Props.C11Filter4
 import Fcgi.Props.C11Filter4Chain
+import Fcgi.Props.E2EUnbounded
 import Fcgi.Props.C12
 import Fcgi.Props.C12Inv
 import Fcgi.Props.C12Wf
@@ -70,6 +72,8 @@ import Fcgi.Props.C17
 import Fcgi.Props.C18
 import Fcgi.Props.C19
 import Fcgi.Props.C20
+import Fcgi.Props.C12Unbounded
+import Fcgi.Props.C14Unbounded
 
 /-!
 # Headline — one checked statement per property
@@ -93,10 +97,11 @@ review found missing were added; the 'not proved' lists follow the review's '(3)
 Cross-cutting scope of the end-to-end clauses (C07, C09, C11, C12, C14): `Ben t` = a transport without
 error answers (arbitrary read/write splitting, transient Pendings) — faults are C12; `NoiseFits` =
 management GetValues bodies whose undecodable tail fits the buffer; the CANONICAL handler families
-only (named per clause); single request unless a clause says otherwise; side conditions such as
-`4·|input| + 17 ≤ 100000` are artefacts of the proofs, not of the model (the model's fuels grow with
-the input) — they cap those clauses at ≈ 25 000 wire bytes; the C07 conjuncts are the `_unbounded` versions of
-`Props/C07Unbounded.lean`, which have no such bound.
+only (named per clause); single request unless a clause says otherwise.  The end-to-end conjuncts of C07, C11, C12 and C14 are the
+`_unbounded` versions (`Props/C07Unbounded.lean`, `Props/E2EUnbounded.lean`, `Props/C12Unbounded.lean`,
+`Props/C14Unbounded.lean`): no bound on the wire length or the buffer size; what is left of the model-fuel
+hypothesis `hhf` bounds only the length of the handler's own output (`wcost |data| + c ≤ 1000`), except the
+Filter-abort rows (a)/(b) inside `filter_abort_table_full_unbounded`, which keep `|Stdin wire| ≤ 31000`.
 
 So this file type-checks only as long as the cited theorems keep stating what is written here.
 Nothing new is proved.  Everything is about the Lean MODEL of the crate; that the model is the code
@@ -1460,14 +1465,14 @@ end Fcgi.Headline
   occurred, even when the handler left input unread” — 'only if': Clause 5 (step level: going on from
   `close` ⇒ KEEP_CONN ∧ no writer alive ∧ output ++ epilogue fully written); both directions at run level:
   the `final` fields of Clauses 1–4 (`k_requests_e2e`: k mixed requests); the error half is C12.  Unread
-  input: Clauses 6–9 (`unread_request_e2e`, `unread_prefix_e2e_full_holds`, `authorizer_tail_e2e`,
-  `unread_filter_e2e`; hypothesis `hnb`: no BeginRequest among the unread records — forced).
+  input: Clauses 6–9 (`unread_request_e2e`, `unread_prefix_e2e_full_holds`, `authorizer_tail_e2e_unbounded`,
+  `unread_filter_e2e_unbounded`; hypothesis `hnb`: no BeginRequest among the unread records — forced).
 * “for every way the transport splits or delays reads and writes; handler families” — every e2e clause: `Ben
   t` (arbitrary splitting, transient Pendings, no faults) and the canonical handler family: `readAll` + one
   Stdout `write_all` + `ret` (Clauses 1–4), non-reading / prefix-reading (6–9), `AsyncBufRead` handlers
-  (Clauses 10–12).  Clauses 1–4, 6, 7, 10–12 are the `_unbounded` versions: no bound on the wire length,
-  `hhf` bounds only the handler's own write (a harness-script fuel); Clauses 8–9 (`authorizer_tail_e2e`,
-  `unread_filter_e2e`) still carry `6·|input| + 26 ≤ 100000`.
+  (Clauses 10–12).  All e2e clauses are the `_unbounded` versions (`Props/C07Unbounded.lean`,
+  `Props/E2EUnbounded.lean`): no bound on the wire length, `hhf` bounds only the handler's own write (a
+  harness-script fuel).
 
 **The conjuncts of `C07_headline`.**
 1. `C07E.single_request_e2e_unbounded` — Responder, canonical handler, any benign transport, ANY wire
@@ -1485,8 +1490,8 @@ end Fcgi.Headline
 6. `C07U.unread_request_e2e_unbounded` — handler reads nothing: served, the unread stream goes to the next
    request parser (no size bound)
 7. `C07U.unread_prefix_e2e_unbounded` — handler reads a strict prefix (no size bound)
-8. `C07U.authorizer_tail_e2e` — Authorizer followed by more traffic
-9. `C07U.unread_filter_e2e` — a Filter left wholly unread
+8. `C07U.authorizer_tail_e2e_unbounded` — Authorizer followed by more traffic
+9. `C07U.unread_filter_e2e_unbounded` — a Filter left wholly unread
 10. `C07B.single_request_bufread_e2e_unbounded` — a handler that drains Stdin through `AsyncBufRead`
    (`fill_buf`/`consume`), no size bound
 11. `C07B.bufread_then_readall_e2e_unbounded` — `fill_buf`/`consume` followed by `read_to_end`, no size
@@ -1693,7 +1698,7 @@ end
 section
 namespace Fcgi.C07U
 open Fcgi Fcgi.Req Fcgi.Str Fcgi.Async Fcgi.Run Fcgi.Spec Fcgi.E2E Fcgi.C07E
-/-- Authorizer followed by more traffic  (= `Fcgi.C07U.authorizer_tail_e2e`, `Props/C07Authorizer.lean`) -/
+/-- Authorizer followed by more traffic  (= `Fcgi.C07U.authorizer_tail_e2e_unbounded`, `Props/E2EUnbounded.lean`) -/
 def C07Clause8 : Prop :=
   ∀ {p : Preamble} {recs tail : List Rec} {b mc : Nat} {rd : ARead} {wr : Bool}
     {data : Bytes} {st : ExitStatus} {more : List (List HOp × Bool)} {t : Transport} {fuel : Nat}
@@ -1705,13 +1710,13 @@ def C07Clause8 : Prop :=
     (hwd : wr = false → data = [])
     (hin : t.input = serAll recs ++ serAll tail) (hben : Ben t) (hev : hsCount t.events = 0)
     (hfuel : t.rd.length + t.wr.length + 1 ≤ fuel)
-    (hsize : 6 * t.input.length + 26 ≤ 100000) (hhf : wcost data.length + 8 ≤ 1000),
+    (hhf : wcost data.length + 8 ≤ 1000),
     ∃ c' fin t₁ t₂ O₁ O₂, runTask fuel (connS b mc t ((aHandler rd wr data st, true) :: more)) 0 none = (c', fin) ∧
       AuthTailOutcome p recs tail t₁ t₂ O₁ O₂ rd b mc data st more t c' fin
 
 theorem C07Clause8_holds : C07Clause8 := by
   unfold C07Clause8
-  exact @authorizer_tail_e2e
+  exact @authorizer_tail_e2e_unbounded
 
 end Fcgi.C07U
 end
@@ -1719,7 +1724,7 @@ end
 section
 namespace Fcgi.C07U
 open Fcgi Fcgi.Req Fcgi.Str Fcgi.Async Fcgi.Run Fcgi.Spec Fcgi.E2E Fcgi.C07E
-/-- a Filter left wholly unread  (= `Fcgi.C07U.unread_filter_e2e`, `Props/C07Unread4.lean`) -/
+/-- a Filter left wholly unread  (= `Fcgi.C07U.unread_filter_e2e_unbounded`, `Props/E2EUnbounded.lean`) -/
 def C07Clause9 : Prop :=
   ∀ {p : Preamble} {recs : List Rec} {content : Bytes} {srecs : List Rec}
     {content2 : Bytes} {drecs : List Rec}
@@ -1731,14 +1736,13 @@ def C07Clause9 : Prop :=
     (hd : StreamRecs p.id 8 content2 drecs) (hdn : NoiseFits (alignedBufsize b) drecs)
     (hnb : ∀ r ∈ drecs, r.rtype.toNat ≠ RT.beginRequest)
     (hin : t.input = serAll recs ++ (serAll srecs ++ serAll drecs)) (hben : Ben t) (hev : hsCount t.events = 0)
-    (hfuel : t.rd.length + t.wr.length + 1 ≤ fuel)
-    (hsize : 6 * t.input.length + 26 ≤ 100000),
+    (hfuel : t.rd.length + t.wr.length + 1 ≤ fuel),
     ∃ c' fin d₁ s₂, runTask fuel (connS b mc t (([.ret st], true) :: more)) 0 none = (c', fin) ∧
       FilterOutcome p recs srecs drecs d₁ s₂ b mc st more t c' fin
 
 theorem C07Clause9_holds : C07Clause9 := by
   unfold C07Clause9
-  exact @unread_filter_e2e
+  exact @unread_filter_e2e_unbounded
 
 end Fcgi.C07U
 end
@@ -2616,31 +2620,33 @@ end Fcgi.Headline
 
 **Clause by clause.**
 * “exactly one EndRequest(RequestComplete): at once and without invoking the handler if it arrives during
-  Params” — Clause 1 (`abort_in_params_e2e`).
+  Params” — Clause 1 (`abort_in_params_e2e_unbounded`; this and the other e2e clauses: the `_unbounded`
+  versions of `Props/E2EUnbounded.lean`, no bound on the wire length, no model-fuel hypothesis).
 * “or — later — after the handler's next input read fails with a connection-aborted error, carrying the
-  abort application status unless the handler chose its own” — Clauses 2–3 (`abort_mid_stream_e2e`,
-  `abort_own_status_e2e`).
+  abort application status unless the handler chose its own” — Clauses 2–3
+  (`abort_mid_stream_e2e_unbounded`, `abort_own_status_e2e_unbounded`).
 * “input delivered before the error is a prefix of what the client sent, an AbortRequest for any other id is
   ignored, and with keep-connection the same connection then serves the next request” — Clauses 4–6
-  (`abort_mid_stream_prefix_e2e`, `foreign_abort_ignored_e2e`, `abort_mid_stream_next_e2e`); Clause 7
-  (`filter_abort_table_full`): every abort placement × handler row for a Filter, exactly one EndRequest
-  each.
+  (`abort_mid_stream_prefix_e2e_unbounded`, `foreign_abort_ignored_e2e_unbounded`,
+  `abort_mid_stream_next_e2e_unbounded`); Clause 7 (`filter_abort_table_full_unbounded`): every abort
+  placement × handler row for a Filter, exactly one EndRequest each.
 * “Responder cells beyond the canonical reading handler” — Clauses 8–11: abort in Params with nothing behind
   it, own status + KEEP_CONN, `close` tolerating the aborted state at poll level (handler not reading / past
   end-of-stream: no e2e theorem), the error kind.
 
 **The conjuncts of `C11_headline`.**
-1. `C11E.abort_in_params_e2e` — abort inside Params (followed by a complete request `q`): one
+1. `C11E.abort_in_params_e2e_unbounded` — abort inside Params (followed by a complete request `q`): one
    EndRequest(RequestComplete), no handler; alone: Clause 8
-2. `C11E.abort_mid_stream_e2e` — abort later: the handler's next read fails with ConnectionAborted, one
-   EndRequest with the abort status
-3. `C11E.abort_own_status_e2e` — … unless the handler chose its own status
-4. `C11E.abort_mid_stream_prefix_e2e` — input delivered before the error is a prefix of what was sent
-5. `C11E.foreign_abort_ignored_e2e` — an AbortRequest for another id is ignored
-6. `C11E.abort_mid_stream_next_e2e` — with KEEP_CONN the connection serves the next request
-7. `C11F.filter_abort_table_full` — Filter: every placement of the abort × handler row
-8. `C11E.abort_in_params_alone_e2e` — abort inside Params with nothing behind it
-9. `C11E.abort_own_status_next_e2e` — own status + KEEP_CONN: the next request is served
+2. `C11E.abort_mid_stream_e2e_unbounded` — abort later: the handler's next read fails with
+   ConnectionAborted, one EndRequest with the abort status
+3. `C11E.abort_own_status_e2e_unbounded` — … unless the handler chose its own status
+4. `C11E.abort_mid_stream_prefix_e2e_unbounded` — input delivered before the error is a prefix of what was
+   sent
+5. `C11E.foreign_abort_ignored_e2e_unbounded` — an AbortRequest for another id is ignored
+6. `C11E.abort_mid_stream_next_e2e_unbounded` — with KEEP_CONN the connection serves the next request
+7. `C11F.filter_abort_table_full_unbounded` — Filter: every placement of the abort × handler row
+8. `C11E.abort_in_params_alone_e2e_unbounded` — abort inside Params with nothing behind it
+9. `C11E.abort_own_status_next_e2e_unbounded` — own status + KEEP_CONN: the next request is served
 10. `C11.close_tolerates_abort` — poll level: a Responder that does not read / is past end-of-stream —
    `close` tolerates the aborted state
 11. `C11.abort_maps_to_connection_aborted` — the error KIND: the parser's abort signal reaches the handler
@@ -2669,7 +2675,7 @@ end Fcgi.Headline
 section
 namespace Fcgi.C11E
 open Fcgi Fcgi.Req Fcgi.Str Fcgi.Async Fcgi.Run Fcgi.Spec Fcgi.E2E Fcgi.C07E
-/-- abort inside Params (followed by a complete request `q`): one EndRequest(RequestComplete), no handler; alone: Clause 8  (= `Fcgi.C11E.abort_in_params_e2e`, `Props/C11E2E.lean`) -/
+/-- abort inside Params (followed by a complete request `q`): one EndRequest(RequestComplete), no handler; alone: Clause 8  (= `Fcgi.C11E.abort_in_params_e2e_unbounded`, `Props/E2EUnbounded.lean`) -/
 def C11Clause1 : Prop :=
   ∀ {p : Preamble} {hd suf : List Rec} {a : Rec} {b mc : Nat} {q : Sent}
     {t : Transport} {fuel : Nat}
@@ -2677,10 +2683,9 @@ def C11Clause1 : Prop :=
     (ha : IsAbort p.id a)
     (hpairs : ∀ x ∈ p.pairs, (NV.enc x).length ≤ alignedBufsize b)
     (hnoise : NoiseFits (alignedBufsize b) (hd ++ suf))
-    (hq : q.OK b)
+    (hq : q.OKu b)
     (hin : t.input = serAll hd ++ a.ser ++ q.wire) (hben : Ben t) (hev : hsCount t.events = 0)
-    (hfuel : t.rd.length + t.wr.length + 1 ≤ fuel)
-    (hsize : 6 * t.input.length + 20 ≤ 100000),
+    (hfuel : t.rd.length + t.wr.length + 1 ≤ fuel),
     ∃ c' fin O₁ O₂, runTask fuel (connS b mc t [q.handler]) 0 none = (c', fin) ∧
       O₁ ++ O₂ = q.owed mc ∧
       OutcomeG q.p q.reads b mc t.wlog
@@ -2688,7 +2693,7 @@ def C11Clause1 : Prop :=
 
 theorem C11Clause1_holds : C11Clause1 := by
   unfold C11Clause1
-  exact @abort_in_params_e2e
+  exact @abort_in_params_e2e_unbounded
 
 end Fcgi.C11E
 end
@@ -2696,7 +2701,7 @@ end
 section
 namespace Fcgi.C11E
 open Fcgi Fcgi.Req Fcgi.Str Fcgi.Async Fcgi.Run Fcgi.Spec Fcgi.E2E Fcgi.C07E
-/-- abort later: the handler's next read fails with ConnectionAborted, one EndRequest with the abort status  (= `Fcgi.C11E.abort_mid_stream_e2e`, `Props/C11E2E.lean`) -/
+/-- abort later: the handler's next read fails with ConnectionAborted, one EndRequest with the abort status  (= `Fcgi.C11E.abort_mid_stream_e2e_unbounded`, `Props/E2EUnbounded.lean`) -/
 def C11Clause2 : Prop :=
   ∀ {p : Preamble} {recs : List Rec} {c1 : Bytes} {body : List Rec} {a : Rec}
     {tail : Bytes} {b mc : Nat} {data : Bytes} {st : ExitStatus} {t : Transport} {fuel : Nat}
@@ -2705,8 +2710,7 @@ def C11Clause2 : Prop :=
     (hnoise : NoiseFits (alignedBufsize b) recs)
     (hbody : Body p.id 5 c1 body) (hbn : NoiseFits (alignedBufsize b) body) (ha : IsAbort p.id a)
     (hin : t.input = serAll recs ++ (serAll body ++ (a.ser ++ tail))) (hben : Ben t)
-    (hev : hsCount t.events = 0) (hfuel : t.rd.length + t.wr.length + 1 ≤ fuel)
-    (hsize : 6 * t.input.length + 26 ≤ 100000) (hhf : alignedBufsize b / 32 + 12 ≤ 1000),
+    (hev : hsCount t.events = 0) (hfuel : t.rd.length + t.wr.length + 1 ≤ fuel),
     ∃ c' O₁ O₂, runTask fuel (conn0 b mc t data st) 0 none = (c', "RET") ∧
       O₁ ++ O₂ = owedStream p.id 5 mc body ∧
       c'.env.tr.wlog = t.wlog ++ (owedPreamble p mc recs ++ O₁ ++ O₂ ++ epilogue p.id ExitStatus.abort) ∧
@@ -2714,7 +2718,7 @@ def C11Clause2 : Prop :=
 
 theorem C11Clause2_holds : C11Clause2 := by
   unfold C11Clause2
-  exact @abort_mid_stream_e2e
+  exact @abort_mid_stream_e2e_unbounded
 
 end Fcgi.C11E
 end
@@ -2722,7 +2726,7 @@ end
 section
 namespace Fcgi.C11E
 open Fcgi Fcgi.Req Fcgi.Str Fcgi.Async Fcgi.Run Fcgi.Spec Fcgi.E2E Fcgi.C07E
-/-- … unless the handler chose its own status  (= `Fcgi.C11E.abort_own_status_e2e`, `Props/C11E2E.lean`) -/
+/-- … unless the handler chose its own status  (= `Fcgi.C11E.abort_own_status_e2e_unbounded`, `Props/E2EUnbounded.lean`) -/
 def C11Clause3 : Prop :=
   ∀ {p : Preamble} {recs : List Rec} {c1 : Bytes} {body : List Rec} {a : Rec}
     {tail : Bytes} {b mc : Nat} {st : ExitStatus} {t : Transport} {fuel : Nat}
@@ -2731,8 +2735,7 @@ def C11Clause3 : Prop :=
     (hnoise : NoiseFits (alignedBufsize b) recs)
     (hbody : Body p.id 5 c1 body) (hbn : NoiseFits (alignedBufsize b) body) (ha : IsAbort p.id a)
     (hin : t.input = serAll recs ++ (serAll body ++ (a.ser ++ tail))) (hben : Ben t)
-    (hev : hsCount t.events = 0) (hfuel : t.rd.length + t.wr.length + 1 ≤ fuel)
-    (hsize : 6 * t.input.length + 26 ≤ 100000) (hhf : alignedBufsize b / 32 + 12 ≤ 1000),
+    (hev : hsCount t.events = 0) (hfuel : t.rd.length + t.wr.length + 1 ≤ fuel),
     ∃ c' O₁ O₂, runTask fuel (connS b mc t [([.readAll, .ret st], false)]) 0 none = (c', "RET") ∧
       O₁ ++ O₂ = owedStream p.id 5 mc body ∧
       c'.env.tr.wlog = t.wlog ++ (owedPreamble p mc recs ++ O₁ ++ O₂ ++ epilogue p.id st) ∧
@@ -2740,7 +2743,7 @@ def C11Clause3 : Prop :=
 
 theorem C11Clause3_holds : C11Clause3 := by
   unfold C11Clause3
-  exact @abort_own_status_e2e
+  exact @abort_own_status_e2e_unbounded
 
 end Fcgi.C11E
 end
@@ -2748,7 +2751,7 @@ end
 section
 namespace Fcgi.C11E
 open Fcgi Fcgi.Req Fcgi.Str Fcgi.Async Fcgi.Run Fcgi.Spec Fcgi.E2E Fcgi.C07E
-/-- input delivered before the error is a prefix of what was sent  (= `Fcgi.C11E.abort_mid_stream_prefix_e2e`, `Props/C11E2E.lean`) -/
+/-- input delivered before the error is a prefix of what was sent  (= `Fcgi.C11E.abort_mid_stream_prefix_e2e_unbounded`, `Props/E2EUnbounded.lean`) -/
 def C11Clause4 : Prop :=
   ∀ {p : Preamble} {recs : List Rec} {content : Bytes} {body suf : List Rec}
     {a : Rec} {tail : Bytes} {b mc : Nat} {data : Bytes} {st : ExitStatus} {t : Transport} {fuel : Nat}
@@ -2758,8 +2761,7 @@ def C11Clause4 : Prop :=
     (hs : StreamRecs p.id 5 content (body ++ suf)) (hsuf : suf ≠ [])
     (hbn : NoiseFits (alignedBufsize b) body) (ha : IsAbort p.id a)
     (hin : t.input = serAll recs ++ (serAll body ++ (a.ser ++ tail))) (hben : Ben t)
-    (hev : hsCount t.events = 0) (hfuel : t.rd.length + t.wr.length + 1 ≤ fuel)
-    (hsize : 6 * t.input.length + 26 ≤ 100000) (hhf : alignedBufsize b / 32 + 12 ≤ 1000),
+    (hev : hsCount t.events = 0) (hfuel : t.rd.length + t.wr.length + 1 ≤ fuel),
     ∃ c' O₁ O₂ acc, runTask fuel (conn0 b mc t data st) 0 none = (c', "RET") ∧
       O₁ ++ O₂ = owedStream p.id 5 mc body ∧ acc <+: content ∧ raEvent acc ∈ c'.env.tr.events ∧
       startEvent p.request ∈ c'.env.tr.events ∧ hsCount c'.env.tr.events = 1 ∧
@@ -2768,7 +2770,7 @@ def C11Clause4 : Prop :=
 
 theorem C11Clause4_holds : C11Clause4 := by
   unfold C11Clause4
-  exact @abort_mid_stream_prefix_e2e
+  exact @abort_mid_stream_prefix_e2e_unbounded
 
 end Fcgi.C11E
 end
@@ -2776,7 +2778,7 @@ end
 section
 namespace Fcgi.C11E
 open Fcgi Fcgi.Req Fcgi.Str Fcgi.Async Fcgi.Run Fcgi.Spec Fcgi.E2E Fcgi.C07E
-/-- an AbortRequest for another id is ignored  (= `Fcgi.C11E.foreign_abort_ignored_e2e`, `Props/C11E2E.lean`) -/
+/-- an AbortRequest for another id is ignored  (= `Fcgi.C11E.foreign_abort_ignored_e2e_unbounded`, `Props/E2EUnbounded.lean`) -/
 def C11Clause5 : Prop :=
   ∀ {p : Preamble} {recs : List Rec} {content : Bytes} {s1 s2 : List Rec}
     {f : Rec} {b mc : Nat} {data : Bytes} {st : ExitStatus} {t : Transport} {fuel : Nat}
@@ -2787,15 +2789,15 @@ def C11Clause5 : Prop :=
     (hsn : NoiseFits (alignedBufsize b) (s1 ++ s2)) (hf : ForeignAbort p.id f)
     (hin : t.input = serAll recs ++ serAll (s1 ++ f :: s2)) (hben : Ben t) (hev : hsCount t.events = 0)
     (hfuel : t.rd.length + t.wr.length + 1 ≤ fuel)
-    (hsize : 4 * t.input.length + 17 ≤ 100000)
-    (hhf : alignedBufsize b / 32 + wcost data.length + 12 ≤ 1000),
+   
+    (hhf : wcost data.length + 12 ≤ 1000),
     ∃ c' fin O₁ O₂, runTask fuel (conn0 b mc t data st) 0 none = (c', fin) ∧
       O₁ ++ O₂ = owedStream p.id 5 mc (s1 ++ s2) ∧
       OutcomeN p content b mc t.wlog (expectedLogN p recs mc data st O₁ O₂) t c' fin
 
 theorem C11Clause5_holds : C11Clause5 := by
   unfold C11Clause5
-  exact @foreign_abort_ignored_e2e
+  exact @foreign_abort_ignored_e2e_unbounded
 
 end Fcgi.C11E
 end
@@ -2803,7 +2805,7 @@ end
 section
 namespace Fcgi.C11E
 open Fcgi Fcgi.Req Fcgi.Str Fcgi.Async Fcgi.Run Fcgi.Spec Fcgi.E2E Fcgi.C07E
-/-- with KEEP_CONN the connection serves the next request  (= `Fcgi.C11E.abort_mid_stream_next_e2e`, `Props/C11E2E.lean`) -/
+/-- with KEEP_CONN the connection serves the next request  (= `Fcgi.C11E.abort_mid_stream_next_e2e_unbounded`, `Props/E2EUnbounded.lean`) -/
 def C11Clause6 : Prop :=
   ∀ {p : Preamble} {recs : List Rec} {c1 : Bytes} {body : List Rec} {a : Rec}
     {b mc : Nat} {data : Bytes} {st : ExitStatus} {q : Sent} {t : Transport} {fuel : Nat}
@@ -2811,10 +2813,9 @@ def C11Clause6 : Prop :=
     (hpairs : ∀ x ∈ p.pairs, (NV.enc x).length ≤ alignedBufsize b)
     (hnoise : NoiseFits (alignedBufsize b) recs)
     (hbody : Body p.id 5 c1 body) (hbn : NoiseFits (alignedBufsize b) body) (ha : IsAbort p.id a)
-    (hq : q.OK b)
+    (hq : q.OKu b)
     (hin : t.input = serAll recs ++ (serAll body ++ (a.ser ++ q.wire))) (hben : Ben t)
-    (hev : hsCount t.events = 0) (hfuel : t.rd.length + t.wr.length + 1 ≤ fuel)
-    (hsize : 6 * t.input.length + 26 ≤ 100000) (hhf : alignedBufsize b / 32 + 12 ≤ 1000),
+    (hev : hsCount t.events = 0) (hfuel : t.rd.length + t.wr.length + 1 ≤ fuel),
     ∃ c' fin O₁ O₂ P₁ P₂,
       runTask fuel (connS b mc t [(canonical data st, true), q.handler]) 0 none = (c', fin) ∧
       O₁ ++ O₂ = owedStream p.id 5 mc body ∧ P₁ ++ P₂ = q.owed mc ∧
@@ -2824,7 +2825,7 @@ def C11Clause6 : Prop :=
 
 theorem C11Clause6_holds : C11Clause6 := by
   unfold C11Clause6
-  exact @abort_mid_stream_next_e2e
+  exact @abort_mid_stream_next_e2e_unbounded
 
 end Fcgi.C11E
 end
@@ -2832,7 +2833,7 @@ end
 section
 namespace Fcgi.C11F
 open Fcgi Fcgi.Req Fcgi.Str Fcgi.Async Fcgi.Run Fcgi.Spec Fcgi.E2E Fcgi.C07E Fcgi.C07U
-/-- Filter: every placement of the abort × handler row  (= `Fcgi.C11F.filter_abort_table_full`, `Props/C11Filter4.lean`) -/
+/-- Filter: every placement of the abort × handler row  (= `Fcgi.C11F.filter_abort_table_full_unbounded`, `Props/E2EUnbounded.lean`) -/
 def C11Clause7 : Prop :=
   (∀ {p : Preamble} {recs sbody dbody : List Rec} {pad : Bytes} {res : UInt8} {a : Rec} {post : List Rec}
       {b mc : Nat} {content c2 : Bytes} {st : ExitStatus} {more : List (List HOp × Bool)} {t : Transport}
@@ -2844,7 +2845,7 @@ def C11Clause7 : Prop :=
       (∀ r ∈ post, r.WF) → NoiseFits (alignedBufsize b) post → (∀ r ∈ post, r.rtype.toNat ≠ RT.beginRequest) →
       (∀ r ∈ post, ¬ (r.rtype.toNat = 5 ∧ r.id = p.id)) →
       t.input = serAll recs ++ gapX p.id sbody pad res dbody a post → Ben t → hsCount t.events = 0 →
-      t.rd.length + t.wr.length + 1 ≤ fuel → 6 * t.input.length + 26 ≤ 100000 →
+      t.rd.length + t.wr.length + 1 ≤ fuel →
       ∃ c' fin, runTask fuel (connS b mc t (([.ret st], true) :: more)) 0 none = (c', fin) ∧
         EndOnce p recs mc st t c') ∧
     -- … and all the other cells
@@ -2855,7 +2856,7 @@ def C11Clause7 : Prop :=
       IsAbort p.id a → (∀ r ∈ post, r.WF) → NoiseFits (alignedBufsize b) post →
       (∀ r ∈ post, r.rtype.toNat ≠ RT.beginRequest) →
       t.input = serAll recs ++ (serAll (pre ++ [a]) ++ serAll post) → Ben t → hsCount t.events = 0 →
-      t.rd.length + t.wr.length + 1 ≤ fuel → 6 * t.input.length + 26 ≤ 100000 →
+      t.rd.length + t.wr.length + 1 ≤ fuel →
       ∃ c' fin, runTask fuel (connS b mc t (([.ret st], true) :: more)) 0 none = (c', fin) ∧
         EndOnce p recs mc st t c') ∧
     (∀ {p : Preamble} {recs pre : List Rec} {a : Rec} {post : List Rec} {b mc : Nat} {content : Bytes}
@@ -2865,7 +2866,7 @@ def C11Clause7 : Prop :=
       IsAbort p.id a → (∀ r ∈ post, r.WF) → NoiseFits (alignedBufsize b) post →
       (∀ r ∈ post, r.rtype.toNat ≠ RT.beginRequest) →
       t.input = serAll recs ++ (serAll (pre ++ [a]) ++ serAll post) → Ben t → hsCount t.events = 0 →
-      t.rd.length + t.wr.length + 1 ≤ fuel → 6 * t.input.length + 26 ≤ 100000 →
+      t.rd.length + t.wr.length + 1 ≤ fuel → (serAll (pre ++ [a]) ++ serAll post).length ≤ 31000 →
       ∃ c' fin, runTask fuel (connS b mc t ((rscript s0, pr) :: more)) 0 none = (c', fin) ∧
         EndOnce p recs mc (closeStatus pr s0) t c') ∧
     (∀ {p : Preamble} {recs sbody mid : List Rec} {pad : Bytes} {res : UInt8} {a : Rec} {post : List Rec}
@@ -2877,7 +2878,7 @@ def C11Clause7 : Prop :=
       IsAbort p.id a → (∀ r ∈ post, r.WF) → NoiseFits (alignedBufsize b) post →
       (∀ r ∈ post, r.rtype.toNat ≠ RT.beginRequest) →
       t.input = serAll recs ++ gapX p.id sbody pad res mid a post → Ben t → hsCount t.events = 0 →
-      t.rd.length + t.wr.length + 1 ≤ fuel → 6 * t.input.length + 26 ≤ 100000 →
+      t.rd.length + t.wr.length + 1 ≤ fuel → (gapX p.id sbody pad res mid a post).length ≤ 31000 →
       ∃ c' fin, runTask fuel (connS b mc t ((rscript s0, pr) :: more)) 0 none = (c', fin) ∧
         EndOnce p recs mc (closeStatus pr s0) t c') ∧
     (∀ {p : Preamble} {recs sbody dbody : List Rec} {pad : Bytes} {res : UInt8} {a : Rec} {post : List Rec}
@@ -2889,14 +2890,14 @@ def C11Clause7 : Prop :=
       IsAbort p.id a → (∀ r ∈ post, r.WF) → NoiseFits (alignedBufsize b) post →
       (∀ r ∈ post, r.rtype.toNat ≠ RT.beginRequest) →
       t.input = serAll recs ++ gapX p.id sbody pad res dbody a post → Ben t → hsCount t.events = 0 →
-      t.rd.length + t.wr.length + 1 ≤ fuel → 6 * t.input.length + 26 ≤ 100000 →
+      t.rd.length + t.wr.length + 1 ≤ fuel →
       ∃ c' fin, runTask fuel (connS b mc t ((rscript s0, pr) :: more)) 0 none = (c', fin) ∧
         EndOnce p recs mc (closeStatus pr s0) t c') ∧
     (∀ s0, closeStatus true s0 = ExitStatus.abort ∧ closeStatus false s0 = s0))
 
 theorem C11Clause7_holds : C11Clause7 := by
   unfold C11Clause7
-  exact @filter_abort_table_full
+  exact @filter_abort_table_full_unbounded
 
 end Fcgi.C11F
 end
@@ -2904,7 +2905,7 @@ end
 section
 namespace Fcgi.C11E
 open Fcgi Fcgi.Req Fcgi.Str Fcgi.Async Fcgi.Run Fcgi.Spec Fcgi.E2E Fcgi.C07E
-/-- abort inside Params with nothing behind it  (= `Fcgi.C11E.abort_in_params_alone_e2e`, `Props/C11E2E.lean`) -/
+/-- abort inside Params with nothing behind it  (= `Fcgi.C11E.abort_in_params_alone_e2e_unbounded`, `Props/E2EUnbounded.lean`) -/
 def C11Clause8 : Prop :=
   ∀ {p : Preamble} {hd suf : List Rec} {a : Rec} {b mc : Nat}
     {sc : List (List HOp × Bool)} {t : Transport} {fuel : Nat}
@@ -2913,8 +2914,7 @@ def C11Clause8 : Prop :=
     (hpairs : ∀ x ∈ p.pairs, (NV.enc x).length ≤ alignedBufsize b)
     (hnoise : NoiseFits (alignedBufsize b) (hd ++ suf))
     (hin : t.input = serAll hd ++ a.ser) (hben : Ben t) (hev : hsCount t.events = 0)
-    (hfuel : t.rd.length + t.wr.length + 1 ≤ fuel)
-    (hsize : 6 * t.input.length + 26 ≤ 100000),
+    (hfuel : t.rd.length + t.wr.length + 1 ≤ fuel),
     ∃ c' fin, runTask fuel (connS b mc t sc) 0 none = (c', fin) ∧
       c'.env.tr.wlog = t.wlog ++ (owedPreamble p mc hd ++ abortReply p.id) ∧
       hsCount c'.env.tr.events = 0 ∧ c'.scripts = sc ∧
@@ -2924,7 +2924,7 @@ def C11Clause8 : Prop :=
 
 theorem C11Clause8_holds : C11Clause8 := by
   unfold C11Clause8
-  exact @abort_in_params_alone_e2e
+  exact @abort_in_params_alone_e2e_unbounded
 
 end Fcgi.C11E
 end
@@ -2932,7 +2932,7 @@ end
 section
 namespace Fcgi.C11E
 open Fcgi Fcgi.Req Fcgi.Str Fcgi.Async Fcgi.Run Fcgi.Spec Fcgi.E2E Fcgi.C07E
-/-- own status + KEEP_CONN: the next request is served  (= `Fcgi.C11E.abort_own_status_next_e2e`, `Props/C11E2E.lean`) -/
+/-- own status + KEEP_CONN: the next request is served  (= `Fcgi.C11E.abort_own_status_next_e2e_unbounded`, `Props/E2EUnbounded.lean`) -/
 def C11Clause9 : Prop :=
   ∀ {p : Preamble} {recs : List Rec} {c1 : Bytes} {body : List Rec} {a : Rec}
     {b mc : Nat} {st : ExitStatus} {q : Sent} {t : Transport} {fuel : Nat}
@@ -2940,10 +2940,9 @@ def C11Clause9 : Prop :=
     (hpairs : ∀ x ∈ p.pairs, (NV.enc x).length ≤ alignedBufsize b)
     (hnoise : NoiseFits (alignedBufsize b) recs)
     (hbody : Body p.id 5 c1 body) (hbn : NoiseFits (alignedBufsize b) body) (ha : IsAbort p.id a)
-    (hq : q.OK b)
+    (hq : q.OKu b)
     (hin : t.input = serAll recs ++ (serAll body ++ (a.ser ++ q.wire))) (hben : Ben t)
-    (hev : hsCount t.events = 0) (hfuel : t.rd.length + t.wr.length + 1 ≤ fuel)
-    (hsize : 6 * t.input.length + 26 ≤ 100000) (hhf : alignedBufsize b / 32 + 12 ≤ 1000),
+    (hev : hsCount t.events = 0) (hfuel : t.rd.length + t.wr.length + 1 ≤ fuel),
     ∃ c' fin O₁ O₂ P₁ P₂,
       runTask fuel (connS b mc t [([.readAll, .ret st], false), q.handler]) 0 none = (c', fin) ∧
       O₁ ++ O₂ = owedStream p.id 5 mc body ∧ P₁ ++ P₂ = q.owed mc ∧
@@ -2953,7 +2952,7 @@ def C11Clause9 : Prop :=
 
 theorem C11Clause9_holds : C11Clause9 := by
   unfold C11Clause9
-  exact @abort_own_status_next_e2e
+  exact @abort_own_status_next_e2e_unbounded
 
 end Fcgi.C11E
 end
@@ -3026,34 +3025,37 @@ end Fcgi.Headline
 * “EOF or an error at any byte position of the incoming stream, or on any write: the task terminates without
   panicking or spinning” — Clauses 1–3 (EOF at ANY offset, all three roles: always `RET`/`finished`), Clause
   10 (the transport FAILS instead of ending, any offset), Clause 9 (a read error at ANY read-call index),
-  Clause 5 (`write_error_e2e`), Clause 8 (`run_panics_are_code_panics`: every PANIC of a poll is the script-
-  fuel guard or a crate assertion; no size bound).
+  Clause 5 (`write_error_e2e_unbounded`), Clause 8 (`run_panics_are_code_panics`: every PANIC of a poll is
+  the script-fuel guard or a crate assertion; no size bound).
 * “no handler is invoked for a request whose preamble did not arrive completely” — the `k < |preamble| →
   hsCount = 0` conjuncts of Clauses 1–3 and 10; Clause 11 (read error inside the preamble).
 * “a handler waiting for input that will never come receives an unexpected-EOF (or the transport's) error
   rather than a successful short or empty read” — the `readEofEvent` conjuncts of Clauses 1–2; Clause 4
-  (`read_err_mid_stream_e2e`: exactly the transport's error).
+  (`read_err_mid_stream_e2e_unbounded`: exactly the transport's error).
 * “for a handler that propagates I/O errors, nothing is written after a failed write and everything written
-  before it is a prefix of a well-formed record sequence” — Clauses 5–7 (`write_error_e2e`,
+  before it is a prefix of a well-formed record sequence” — Clauses 5–7 (`write_error_e2e_unbounded`,
   `runTask_write_failure`, `prefix_wellformed_partial`); false without propagation
-  (`write_failure_is_final_full_false`).
+  (`write_failure_is_final_full_false`).  The e2e clauses (1–5, 9–11) are the `_unbounded` versions of
+  `Props/C12Unbounded.lean`: wire and buffer of any size.
 
 **The conjuncts of `C12_headline`.**
-1. `C12E.eof_any_offset_e2e` — Responder: EOF at ANY offset of the wire
-2. `C12E.eof_any_offset_filter_all_e2e` — Filter: EOF at ANY offset
-3. `C12E.eof_any_offset_auth_closed_e2e` — Authorizer with tail traffic: EOF at ANY offset, closed final
-   state
-4. `C12E.read_err_mid_stream_e2e` — a read ERROR mid-stream: the handler gets exactly the transport's error
-5. `C12E.write_error_e2e` — a write error at ANY index: RET, nothing written after it, at most one handler
+1. `C12E.eof_any_offset_e2e_unbounded` — Responder: EOF at ANY offset of the wire
+2. `C12E.eof_any_offset_filter_all_e2e_unbounded` — Filter: EOF at ANY offset
+3. `C12E.eof_any_offset_auth_closed_e2e_unbounded` — Authorizer with tail traffic: EOF at ANY offset, closed
+   final state
+4. `C12E.read_err_mid_stream_e2e_unbounded` — a read ERROR mid-stream: the handler gets exactly the
+   transport's error
+5. `C12E.write_error_e2e_unbounded` — a write error at ANY index: RET, nothing written after it, at most one
+   handler
 6. `C12Inv.runTask_write_failure` — fail-stop for propagating handlers over whole runs
 7. `C12Inv.prefix_wellformed_partial` — the write log is at every moment a prefix of a well-formed record
    sequence
 8. `C12Fuel.run_panics_are_code_panics` — no panic/spin, no size bound: a PANIC of a poll made by `runTask`
    (fuel `connFuel c`) is the handler-script fuel guard or a real assertion of the crate
-9. `C12E.read_error_at_index_e2e` — a read ERROR injected at ANY read-call index
-10. `C12E.read_err_any_offset_e2e` — the transport FAILS (instead of ending) at ANY byte offset: RET, same
-   log and handler count as the EOF run (from `runTask_eof_err`)
-11. `C12E.read_err_in_preamble_e2e` — a read error inside the preamble is swallowed: no handler
+9. `C12E.read_error_at_index_e2e_unbounded` — a read ERROR injected at ANY read-call index
+10. `C12E.read_err_any_offset_e2e_unbounded` — the transport FAILS (instead of ending) at ANY byte offset:
+   RET, same log and handler count as the EOF run (from `runTask_eof_err`)
+11. `C12E.read_err_in_preamble_e2e_unbounded` — a read error inside the preamble is swallowed: no handler
 
 **Modelling assumptions (obligations.json).**
 * handlerPoll fuel is proved sufficient for scripts without read-to-end loops (a harness-script bound, not a
@@ -3075,8 +3077,8 @@ end Fcgi.Headline
 
 section
 namespace Fcgi.C12E
-open Fcgi Fcgi.Req Fcgi.Str Fcgi.Async Fcgi.Run Fcgi.Spec Fcgi.E2E Fcgi.C07E
-/-- Responder: EOF at ANY offset of the wire  (= `Fcgi.C12E.eof_any_offset_e2e`, `Props/C12E2E2.lean`) -/
+open Fcgi Fcgi.Req Fcgi.Str Fcgi.Async Fcgi.Run Fcgi.Spec Fcgi.E2E Fcgi.C07E Fcgi.C07U Fcgi.C12Inv Fcgi.Indep3 Fcgi.EofErr
+/-- Responder: EOF at ANY offset of the wire  (= `Fcgi.C12E.eof_any_offset_e2e_unbounded`, `Props/C12Unbounded.lean`) -/
 def C12Clause1 : Prop :=
   ∀ {p : Preamble} {recs : List Rec} {content : Bytes} {srecs : List Rec}
     {b mc : Nat} {data : Bytes} {st : ExitStatus} {t : Transport} {fuel : Nat} (k : Nat)
@@ -3086,8 +3088,7 @@ def C12Clause1 : Prop :=
     (hs : StreamRecs p.id 5 content srecs) (hsn : NoiseFits (alignedBufsize b) srecs)
     (hin : t.input = (serAll recs ++ serAll srecs).take k) (hben : Ben t) (hem : t.endMode = .eof)
     (hev : hsCount t.events = 0) (hfuel : t.rd.length + t.wr.length + 1 ≤ fuel)
-    (hsize : 4 * t.input.length + 17 ≤ 100000)
-    (hhf : alignedBufsize b / 32 + wcost data.length + 12 ≤ 1000),
+    (hhf : wcost data.length + 12 ≤ 1000),
     ∃ c' O₁ O₂, runTask fuel (conn0 b mc t data st) 0 none = (c', "RET") ∧ c'.phase = .finished ∧
       O₁ ++ O₂ = owedStream p.id 5 mc srecs ∧
       -- the log is a byte prefix of a complete log
@@ -3106,15 +3107,15 @@ def C12Clause1 : Prop :=
 
 theorem C12Clause1_holds : C12Clause1 := by
   unfold C12Clause1
-  exact @eof_any_offset_e2e
+  exact @eof_any_offset_e2e_unbounded
 
 end Fcgi.C12E
 end
 
 section
 namespace Fcgi.C12E
-open Fcgi Fcgi.Req Fcgi.Str Fcgi.Async Fcgi.Run Fcgi.Spec Fcgi.E2E Fcgi.C07E Fcgi.C07U
-/-- Filter: EOF at ANY offset  (= `Fcgi.C12E.eof_any_offset_filter_all_e2e`, `Props/C12E2E7.lean`) -/
+open Fcgi Fcgi.Req Fcgi.Str Fcgi.Async Fcgi.Run Fcgi.Spec Fcgi.E2E Fcgi.C07E Fcgi.C07U Fcgi.C12Inv Fcgi.Indep3 Fcgi.EofErr
+/-- Filter: EOF at ANY offset  (= `Fcgi.C12E.eof_any_offset_filter_all_e2e_unbounded`, `Props/C12Unbounded.lean`) -/
 def C12Clause2 : Prop :=
   ∀ {p : Preamble} {recs srecs drecs : List Rec} {content content2 : Bytes}
     {b mc : Nat} {data : Bytes} {st : ExitStatus} {t : Transport} {fuel : Nat} (k : Nat)
@@ -3124,8 +3125,8 @@ def C12Clause2 : Prop :=
     (hd : StreamRecs p.id 8 content2 drecs) (hdn : NoiseFits (alignedBufsize b) drecs)
     (hin : t.input = (serAll recs ++ (serAll srecs ++ serAll drecs)).take k)
     (hb : Ben t) (hem : t.endMode = .eof) (hev : hsCount t.events = 0)
-    (hfuel : t.rd.length + t.wr.length + 1 ≤ fuel) (hsize : 4 * t.input.length + 17 ≤ 100000)
-    (hhf : alignedBufsize b / 16 + wcost data.length + 24 ≤ 1000),
+    (hfuel : t.rd.length + t.wr.length + 1 ≤ fuel)
+    (hhf : wcost data.length + 24 ≤ 1000),
     ∃ c' O₁ O₂, runTask fuel (connS b mc t [(canonicalF data st, true)]) 0 none = (c', "RET") ∧
       c'.phase = .finished ∧ O₁ ++ O₂ = owedStream p.id 5 mc srecs ++ owedStream p.id 8 mc drecs ∧
       (∃ w, c'.env.tr.wlog = t.wlog ++ w ∧ w <+: expectedLogN p recs mc data st O₁ O₂) ∧
@@ -3145,15 +3146,15 @@ def C12Clause2 : Prop :=
 
 theorem C12Clause2_holds : C12Clause2 := by
   unfold C12Clause2
-  exact @eof_any_offset_filter_all_e2e
+  exact @eof_any_offset_filter_all_e2e_unbounded
 
 end Fcgi.C12E
 end
 
 section
 namespace Fcgi.C12E
-open Fcgi Fcgi.Req Fcgi.Str Fcgi.Async Fcgi.Run Fcgi.Spec Fcgi.E2E Fcgi.C07E Fcgi.C07U
-/-- Authorizer with tail traffic: EOF at ANY offset, closed final state  (= `Fcgi.C12E.eof_any_offset_auth_closed_e2e`, `Props/C12E2E7.lean`) -/
+open Fcgi Fcgi.Req Fcgi.Str Fcgi.Async Fcgi.Run Fcgi.Spec Fcgi.E2E Fcgi.C07E Fcgi.C07U Fcgi.C12Inv Fcgi.Indep3 Fcgi.EofErr
+/-- Authorizer with tail traffic: EOF at ANY offset, closed final state  (= `Fcgi.C12E.eof_any_offset_auth_closed_e2e_unbounded`, `Props/C12Unbounded.lean`) -/
 def C12Clause3 : Prop :=
   ∀ {p : Preamble} {recs tail : List Rec} {b mc : Nat} {rd : ARead} {wr : Bool}
     {data : Bytes} {st : ExitStatus} {more : List (List HOp × Bool)} {t : Transport} {fuel : Nat} (k : Nat)
@@ -3165,7 +3166,7 @@ def C12Clause3 : Prop :=
     (hwd : wr = false → data = [])
     (hin : t.input = (serAll recs ++ serAll tail).take k) (hben : Ben t) (hem : t.endMode = .eof)
     (hev : hsCount t.events = 0)
-    (hfuel : t.rd.length + t.wr.length + 1 ≤ fuel) (hsize : 6 * t.input.length + 26 ≤ 100000)
+    (hfuel : t.rd.length + t.wr.length + 1 ≤ fuel)
     (hhf : wcost data.length + 8 ≤ 1000),
     ∃ c', runTask fuel (connS b mc t ((aHandler rd wr data st, true) :: more)) 0 none = (c', "RET") ∧
       c'.phase = .finished ∧
@@ -3178,15 +3179,15 @@ def C12Clause3 : Prop :=
 
 theorem C12Clause3_holds : C12Clause3 := by
   unfold C12Clause3
-  exact @eof_any_offset_auth_closed_e2e
+  exact @eof_any_offset_auth_closed_e2e_unbounded
 
 end Fcgi.C12E
 end
 
 section
 namespace Fcgi.C12E
-open Fcgi Fcgi.Req Fcgi.Str Fcgi.Async Fcgi.Run Fcgi.Spec Fcgi.E2E Fcgi.C07E
-/-- a read ERROR mid-stream: the handler gets exactly the transport's error  (= `Fcgi.C12E.read_err_mid_stream_e2e`, `Props/C12E2E2.lean`) -/
+open Fcgi Fcgi.Req Fcgi.Str Fcgi.Async Fcgi.Run Fcgi.Spec Fcgi.E2E Fcgi.C07E Fcgi.C07U Fcgi.C12Inv Fcgi.Indep3 Fcgi.EofErr
+/-- a read ERROR mid-stream: the handler gets exactly the transport's error  (= `Fcgi.C12E.read_err_mid_stream_e2e_unbounded`, `Props/C12Unbounded.lean`) -/
 def C12Clause4 : Prop :=
   ∀ {p : Preamble} {recs : List Rec} (Y C O U : Bytes) (b mc : Nat) (rest : List HOp)
     (more : List (List HOp × Bool)) (t : Transport) (fuel : Nat)
@@ -3196,8 +3197,7 @@ def C12Clause4 : Prop :=
     (hfits : ∀ G, G <+: Y → (refWire ⟨p.id, p.role, 5, mc⟩ G).verdict = .more →
       (refWire ⟨p.id, p.role, 5, mc⟩ G).unread.length < alignedBufsize b)
     (hin : t.input = serAll recs ++ Y) (hb : BenE t) (hem : t.endMode = .err)
-    (hfuel : t.rd.length + t.wr.length + 1 ≤ fuel) (hlen : 2 * t.input.length + 7 ≤ 100000)
-    (hcap : alignedBufsize b / 32 + 8 ≤ 1000),
+    (hfuel : t.rd.length + t.wr.length + 1 ≤ fuel),
     ∃ c' x, runTask fuel (connS b mc t ((.readAll :: rest, true) :: more)) 0 none = (c', "RET") ∧
       x = c'.env.tr.rdErr ∧ c'.phase = .finished ∧ c'.env.tr.input = [] ∧
       c'.env.tr.wlog = t.wlog ++ owedPreamble p mc recs ++ O ∧
@@ -3206,15 +3206,15 @@ def C12Clause4 : Prop :=
 
 theorem C12Clause4_holds : C12Clause4 := by
   unfold C12Clause4
-  exact @read_err_mid_stream_e2e
+  exact @read_err_mid_stream_e2e_unbounded
 
 end Fcgi.C12E
 end
 
 section
 namespace Fcgi.C12E
-open Fcgi Fcgi.Req Fcgi.Str Fcgi.Async Fcgi.Run Fcgi.Spec Fcgi.E2E Fcgi.C07E Fcgi.C12Inv Fcgi.Indep3
-/-- a write error at ANY index: RET, nothing written after it, at most one handler  (= `Fcgi.C12E.write_error_e2e`, `Props/C12E2E4.lean`) -/
+open Fcgi Fcgi.Req Fcgi.Str Fcgi.Async Fcgi.Run Fcgi.Spec Fcgi.E2E Fcgi.C07E Fcgi.C07U Fcgi.C12Inv Fcgi.Indep3 Fcgi.EofErr
+/-- a write error at ANY index: RET, nothing written after it, at most one handler  (= `Fcgi.C12E.write_error_e2e_unbounded`, `Props/C12Unbounded.lean`) -/
 def C12Clause5 : Prop :=
   ∀ {p : Preamble} {recs : List Rec} {content : Bytes} {srecs : List Rec}
     {b mc : Nat} {data : Bytes} {st : ExitStatus} {t : Transport} {fuel : Nat}
@@ -3225,8 +3225,7 @@ def C12Clause5 : Prop :=
     (hs : StreamRecs p.id 5 content srecs) (hsn : NoiseFits (alignedBufsize b) srecs)
     (hin : t.input = serAll recs ++ serAll srecs) (hben : Ben { t with wr := pre }) (hev : hsCount t.events = 0)
     (hfuel : t.rd.length + pre.length + 1 ≤ fuel)
-    (hsize : 4 * t.input.length + 17 ≤ 100000)
-    (hhf : alignedBufsize b / 32 + wcost data.length + 12 ≤ 1000),
+    (hhf : wcost data.length + 12 ≤ 1000),
     ∃ c' fin O₁ O₂, runTask fuel (conn0 b mc t data st) 0 none = (c', fin) ∧
       O₁ ++ O₂ = owedStream p.id 5 mc srecs ∧
       (-- the failing answer is never reached: the benign outcome, `bad :: post` still in the script
@@ -3245,7 +3244,7 @@ def C12Clause5 : Prop :=
 
 theorem C12Clause5_holds : C12Clause5 := by
   unfold C12Clause5
-  exact @write_error_e2e
+  exact @write_error_e2e_unbounded
 
 end Fcgi.C12E
 end
@@ -3305,8 +3304,8 @@ end
 
 section
 namespace Fcgi.C12E
-open Fcgi Fcgi.Req Fcgi.Str Fcgi.Async Fcgi.Run Fcgi.Spec Fcgi.E2E Fcgi.C07E Fcgi.C12Inv Fcgi.Indep3
-/-- a read ERROR injected at ANY read-call index  (= `Fcgi.C12E.read_error_at_index_e2e`, `Props/C12E2E4.lean`) -/
+open Fcgi Fcgi.Req Fcgi.Str Fcgi.Async Fcgi.Run Fcgi.Spec Fcgi.E2E Fcgi.C07E Fcgi.C07U Fcgi.C12Inv Fcgi.Indep3 Fcgi.EofErr
+/-- a read ERROR injected at ANY read-call index  (= `Fcgi.C12E.read_error_at_index_e2e_unbounded`, `Props/C12Unbounded.lean`) -/
 def C12Clause9 : Prop :=
   ∀ {p : Preamble} {recs : List Rec} {content : Bytes} {srecs : List Rec}
     {b mc : Nat} {data : Bytes} {st : ExitStatus} {t : Transport} {fuel : Nat}
@@ -3317,8 +3316,7 @@ def C12Clause9 : Prop :=
     (hs : StreamRecs p.id 5 content srecs) (hsn : NoiseFits (alignedBufsize b) srecs)
     (hin : t.input = serAll recs ++ serAll srecs) (hben : Ben { t with rd := pre }) (hev : hsCount t.events = 0)
     (hfuel : pre.length + t.wr.length + 1 ≤ fuel)
-    (hsize : 4 * t.input.length + 17 ≤ 100000)
-    (hhf : alignedBufsize b / 32 + wcost data.length + 12 ≤ 1000),
+    (hhf : wcost data.length + 12 ≤ 1000),
     ∃ c' fin O₁ O₂, runTask fuel (conn0 b mc t data st) 0 none = (c', fin) ∧
       O₁ ++ O₂ = owedStream p.id 5 mc srecs ∧
       ((∃ c1, c' = extC ⟨.err :: post, [], []⟩ c1 ∧
@@ -3331,15 +3329,15 @@ def C12Clause9 : Prop :=
 
 theorem C12Clause9_holds : C12Clause9 := by
   unfold C12Clause9
-  exact @read_error_at_index_e2e
+  exact @read_error_at_index_e2e_unbounded
 
 end Fcgi.C12E
 end
 
 section
 namespace Fcgi.C12E
-open Fcgi Fcgi.Req Fcgi.Str Fcgi.Async Fcgi.Run Fcgi.Spec Fcgi.E2E Fcgi.C07E Fcgi.C07U Fcgi.C12Inv Fcgi.EofErr
-/-- the transport FAILS (instead of ending) at ANY byte offset: RET, same log and handler count as the EOF run (from `runTask_eof_err`)  (= `Fcgi.C12E.read_err_any_offset_e2e`, `Props/C12E2E9.lean`) -/
+open Fcgi Fcgi.Req Fcgi.Str Fcgi.Async Fcgi.Run Fcgi.Spec Fcgi.E2E Fcgi.C07E Fcgi.C07U Fcgi.C12Inv Fcgi.Indep3 Fcgi.EofErr
+/-- the transport FAILS (instead of ending) at ANY byte offset: RET, same log and handler count as the EOF run (from `runTask_eof_err`)  (= `Fcgi.C12E.read_err_any_offset_e2e_unbounded`, `Props/C12Unbounded.lean`) -/
 def C12Clause10 : Prop :=
   ∀ {p : Preamble} {recs : List Rec} {content : Bytes} {srecs : List Rec}
     {b mc : Nat} {data : Bytes} {st : ExitStatus} {t : Transport} {fuel : Nat} (k : Nat)
@@ -3349,8 +3347,7 @@ def C12Clause10 : Prop :=
     (hs : StreamRecs p.id 5 content srecs) (hsn : NoiseFits (alignedBufsize b) srecs)
     (hin : t.input = (serAll recs ++ serAll srecs).take k) (hben : Ben t) (hem : t.endMode = .eof)
     (hev : hsCount t.events = 0) (hfuel : t.rd.length + t.wr.length + 1 ≤ fuel)
-    (hsize : 4 * t.input.length + 17 ≤ 100000)
-    (hhf : alignedBufsize b / 32 + wcost data.length + 12 ≤ 1000),
+    (hhf : wcost data.length + 12 ≤ 1000),
     ∃ c' O₁ O₂, runTask fuel (conn0 b mc (em .err t) data st) 0 none = (c', "RET") ∧ c'.phase = .finished ∧
       O₁ ++ O₂ = owedStream p.id 5 mc srecs ∧
       (∃ w, c'.env.tr.wlog = t.wlog ++ w ∧ w <+: expectedLogN p recs mc data st O₁ O₂) ∧
@@ -3364,15 +3361,15 @@ def C12Clause10 : Prop :=
 
 theorem C12Clause10_holds : C12Clause10 := by
   unfold C12Clause10
-  exact @read_err_any_offset_e2e
+  exact @read_err_any_offset_e2e_unbounded
 
 end Fcgi.C12E
 end
 
 section
 namespace Fcgi.C12E
-open Fcgi Fcgi.Req Fcgi.Str Fcgi.Async Fcgi.Run Fcgi.Spec Fcgi.E2E Fcgi.C07E
-/-- a read error inside the preamble is swallowed: no handler  (= `Fcgi.C12E.read_err_in_preamble_e2e`, `Props/C12E2E2.lean`) -/
+open Fcgi Fcgi.Req Fcgi.Str Fcgi.Async Fcgi.Run Fcgi.Spec Fcgi.E2E Fcgi.C07E Fcgi.C07U Fcgi.C12Inv Fcgi.Indep3 Fcgi.EofErr
+/-- a read error inside the preamble is swallowed: no handler  (= `Fcgi.C12E.read_err_in_preamble_e2e_unbounded`, `Props/C12Unbounded.lean`) -/
 def C12Clause11 : Prop :=
   ∀ {p : Preamble} {recs : List Rec} (X : Bytes) (b mc k : Nat)
     (scripts : List (List HOp × Bool)) (t : Transport) (fuel : Nat)
@@ -3380,7 +3377,7 @@ def C12Clause11 : Prop :=
     (hpairs : ∀ q ∈ p.pairs, (NV.enc q).length ≤ alignedBufsize b) (hnoise : NoiseFits (alignedBufsize b) recs)
     (hk : k < (serAll recs).length) (hin : t.input = (serAll recs ++ X).take k)
     (hb : BenE t) (hem : t.endMode = .err)
-    (hfuel : t.rd.length + t.wr.length + 1 ≤ fuel) (hlen : 2 * t.input.length + 5 ≤ 100000),
+    (hfuel : t.rd.length + t.wr.length + 1 ≤ fuel),
     ∃ c', runTask fuel (connS b mc t scripts) 0 none = (c', "RET") ∧ c'.phase = .finished ∧
       c'.env.tr.input = [] ∧ hsCount c'.env.tr.events = hsCount t.events ∧ c'.scripts = scripts ∧
       c'.env.tr.wlog = t.wlog ++ (run .header t.input mc).out ∧
@@ -3388,7 +3385,7 @@ def C12Clause11 : Prop :=
 
 theorem C12Clause11_holds : C12Clause11 := by
   unfold C12Clause11
-  exact @read_err_in_preamble_e2e
+  exact @read_err_in_preamble_e2e_unbounded
 
 end Fcgi.C12E
 end
@@ -3559,8 +3556,8 @@ end Fcgi.Headline
 
 **Clause by clause.**
 * “a connection whose handler is running completes that request normally, including its EndRequest, and then
-  stops” — Clauses 1–2 (`stop_any_poll_single_e2e_exact`, `stop_any_poll_e2e_exact`: the log EQUALS the
-  complete answer(s)).
+  stops” — Clauses 1–2 (`stop_any_poll_single_e2e_exact_unbounded`, `stop_any_poll_e2e_exact_unbounded`: the
+  log EQUALS the complete answer(s); requests and buffer of any size).
 * “no handler invocation begins in any scheduling step that starts after the request was made, and idle
   connections are woken and stop without reading further” — Clauses 3–5 (`stop_in_parse_request`,
   `no_new_handler_after_stop`, `idle_stops_without_reading`).
@@ -3569,10 +3566,10 @@ end Fcgi.Headline
   `woken_for_completion`, `ready_after_all_gone`) over all interleavings of the step model `wgStep`.
 
 **The conjuncts of `C14_headline`.**
-1. `C14E.stop_any_poll_single_e2e_exact` — one request, flag at ANY poll: RET; either no handler, or the
-   request completed with its whole log incl. EndRequest
-2. `C14E.stop_any_poll_e2e_exact` — two requests: flag while request 2 in flight ⇒ both complete; between ⇒
-   request 2's handler never starts
+1. `C14E.stop_any_poll_single_e2e_exact_unbounded` — one request, flag at ANY poll: RET; either no handler,
+   or the request completed with its whole log incl. EndRequest
+2. `C14E.stop_any_poll_e2e_exact_unbounded` — two requests: flag while request 2 in flight ⇒ both complete;
+   between ⇒ request 2's handler never starts
 3. `C14E.stop_in_parse_request` — an idle connection polled with the flag up stops without a transport call
 4. `C14a.no_new_handler_after_stop` — no handler start in any poll that begins after the flag was raised
 5. `C14a.idle_stops_without_reading` — idle connections stop without reading
@@ -3604,8 +3601,8 @@ end Fcgi.Headline
 
 section
 namespace Fcgi.C14E
-open Fcgi Fcgi.Req Fcgi.Str Fcgi.Async Fcgi.Run Fcgi.Spec Fcgi.E2E Fcgi.C07E
-/-- one request, flag at ANY poll: RET; either no handler, or the request completed with its whole log incl. EndRequest  (= `Fcgi.C14E.stop_any_poll_single_e2e_exact`, `Props/C14E2E3.lean`) -/
+open Fcgi Fcgi.Req Fcgi.Str Fcgi.Async Fcgi.Run Fcgi.Spec Fcgi.E2E Fcgi.C07E Fcgi.C07U
+/-- one request, flag at ANY poll: RET; either no handler, or the request completed with its whole log incl. EndRequest  (= `Fcgi.C14E.stop_any_poll_single_e2e_exact_unbounded`, `Props/C14Unbounded.lean`) -/
 def C14Clause1 : Prop :=
   ∀ {p : Preamble} {recs : List Rec} {content : Bytes} {srecs : List Rec}
     {b mc : Nat} {data : Bytes} {st : ExitStatus} {t : Transport} {fuel : Nat} (j : Nat)
@@ -3615,8 +3612,7 @@ def C14Clause1 : Prop :=
     (hs : StreamRecs p.id 5 content srecs) (hsn : NoiseFits (alignedBufsize b) srecs)
     (hin : t.input = serAll recs ++ serAll srecs) (hben : Ben t) (hev : hsCount t.events = 0)
     (hfuel : t.rd.length + t.wr.length + 2 ≤ fuel)
-    (hsize : 4 * t.input.length + 17 ≤ 100000)
-    (hhf : alignedBufsize b / 32 + wcost data.length + 12 ≤ 1000),
+    (hhf : wcost data.length + 12 ≤ 1000),
     ∃ c', runTask fuel (conn0 b mc t data st) 0 (some j) = (c', "RET") ∧ c'.phase = .finished ∧
       (-- (0) seen by the request's own `parse_request`: no handler
        (hsCount c'.env.tr.events = 0 ∧ c'.env.tr.wlog <+: t.wlog ++ owedPreamble p mc recs) ∨
@@ -3632,18 +3628,18 @@ def C14Clause1 : Prop :=
 
 theorem C14Clause1_holds : C14Clause1 := by
   unfold C14Clause1
-  exact @stop_any_poll_single_e2e_exact
+  exact @stop_any_poll_single_e2e_exact_unbounded
 
 end Fcgi.C14E
 end
 
 section
 namespace Fcgi.C14E
-open Fcgi Fcgi.Req Fcgi.Str Fcgi.Async Fcgi.Run Fcgi.Spec Fcgi.E2E Fcgi.C07E
-/-- two requests: flag while request 2 in flight ⇒ both complete; between ⇒ request 2's handler never starts  (= `Fcgi.C14E.stop_any_poll_e2e_exact`, `Props/C14E2E3.lean`) -/
+open Fcgi Fcgi.Req Fcgi.Str Fcgi.Async Fcgi.Run Fcgi.Spec Fcgi.E2E Fcgi.C07E Fcgi.C07U
+/-- two requests: flag while request 2 in flight ⇒ both complete; between ⇒ request 2's handler never starts  (= `Fcgi.C14E.stop_any_poll_e2e_exact_unbounded`, `Props/C14Unbounded.lean`) -/
 def C14Clause2 : Prop :=
   ∀ {b mc : Nat} (q₁ q₂ : Sent) {t : Transport} {fuel : Nat} (j : Nat)
-    (hok₁ : q₁.OK b) (hok₂ : q₂.OK b) (hkeep : q₁.p.flags.toNat % 2 = 1)
+    (hok₁ : q₁.OKu b) (hok₂ : q₂.OKu b) (hkeep : q₁.p.flags.toNat % 2 = 1)
     (hin : t.input = q₁.wire) (hben : Ben t) (hev : hsCount t.events = 0)
     (hfuel : t.rd.length + t.wr.length + 3 ≤ fuel),
     ∃ c', runFeed fuel (connK b mc t [q₁, q₂]) 0 (some j) [q₂.wire] = (c', "RET") ∧ c'.phase = .finished ∧
@@ -3656,7 +3652,7 @@ def C14Clause2 : Prop :=
 
 theorem C14Clause2_holds : C14Clause2 := by
   unfold C14Clause2
-  exact @stop_any_poll_e2e_exact
+  exact @stop_any_poll_e2e_exact_unbounded
 
 end Fcgi.C14E
 end
